@@ -1303,3 +1303,58 @@ Definition g_gcsa_fetch_forward {TZ : Type} {TZNAME : Type} {DV : Type} {TIME : 
       let out := @nil AEV in
       out)
     tt events_iterable.
+
+(* calgebra/gcsa.py: _convert_timestamps_to_datetime *)
+Definition g_gcsa_convert_timestamps {TZ : Type} {DV : Type} (tz_utc : TZ) (dv_fromtimestamp : Z -> TZ -> DV) (dv_date : DV -> DV) (start_ts : Z) (end_ts : Z) (is_all_day : bool) (calendar_tz : option TZ) : (DV * DV) :=
+  let '(start_dt, end_dt) :=
+    if is_all_day then
+      let tz := (match calendar_tz with Some calendar_tz => calendar_tz | None => tz_utc end) in
+      let start_dt := (dv_date (dv_fromtimestamp start_ts tz)) in
+      let end_dt := (dv_date (dv_fromtimestamp end_ts tz)) in
+      (start_dt, end_dt)
+    else
+      let start_dt := (g_gcsa_ts_to_dt tz_utc dv_fromtimestamp start_ts) in
+      let end_dt := (g_gcsa_ts_to_dt tz_utc dv_fromtimestamp end_ts) in
+      (start_dt, end_dt) in
+  (start_dt, end_dt).
+
+(* calgebra/gcsa.py: _prepare_event_for_add *)
+Definition g_gcsa_prepare_event_for_add {TZ : Type} {DT : Type} {TIME : Type} {TD : Type} {DV : Type} {IVLX : Type} {EVENT : Type} {ERRS : Type} {PW : Type} {CID : Type} {CSUM : Type} (tz_utc : TZ) (dt_fromtimestamp : Z -> TZ -> DT) (dt_time : DT -> TIME) (time_min : TIME) (time_neb : TIME -> TIME -> bool) (td_of_seconds : Z -> TD) (td_of_days : Z -> TD) (td_of_hours : Z -> TD) (td_days : TD -> Z) (td_sub : TD -> TD -> TD) (td_gtb : TD -> TD -> bool) (dv_fromtimestamp : Z -> TZ -> DV) (dv_date : DV -> DV) (validate_event : IVLX -> option EVENT * option ERRS) (errs_first : ERRS -> PW) (pw_assertion_error : PW) (wr_unbounded : EVENT -> PW) (ev_start : EVENT -> option Z) (ev_end : EVENT -> option Z) (ev_is_all_day : EVENT -> option bool) (ev_for_calendar : EVENT -> CID -> CSUM -> EVENT) (mk_prepared : EVENT -> Z -> Z -> bool -> DV -> DV -> PW) (interval_ : IVLX) (calendar_id : CID) (calendar_summary : CSUM) (calendar_tz : option TZ) : PW :=
+  let '(validated, error_result) := (validate_event interval_) in
+  match error_result with
+  | Some error_result =>
+    (errs_first error_result)
+  | None =>
+    let event := validated in
+    match event with
+    | Some event =>
+      if ((is_none (ev_start event)) || (is_none (ev_end event))) then
+        (wr_unbounded event)
+      else
+        let start := (ozd (ev_start event)) in
+        let end_ := (ozd (ev_end event)) in
+        let event := (ev_for_calendar event calendar_id calendar_summary) in
+        let is_all_day := (ev_is_all_day event) in
+        let is_all_day :=
+          match is_all_day with
+          | Some is_all_day =>
+            is_all_day
+          | None =>
+            let is_all_day := (g_gcsa_infer_is_all_day tz_utc dt_fromtimestamp dt_time time_min time_neb td_of_seconds td_of_days td_of_hours td_days td_sub td_gtb start end_ calendar_tz) in
+            is_all_day
+          end in
+        let '(start_dt, end_dt) := (g_gcsa_convert_timestamps tz_utc dv_fromtimestamp dv_date start end_ is_all_day calendar_tz) in
+        (mk_prepared event start end_ is_all_day start_dt end_dt)
+    | None =>
+      pw_assertion_error
+    end
+  end.
+
+(* calgebra/gcsa.py: _build_gcsa_event *)
+Definition g_gcsa_build_gcsa_event {DV : Type} {TZNAME : Type} {EVENT : Type} {PW : Type} {SUM : Type} {ODESC : Type} {REMS : Type} {GREMS : Type} {GEV : Type} (pw_event : PW -> EVENT) (pw_start_dt : PW -> DV) (pw_end_dt : PW -> DV) (pw_is_all_day : PW -> bool) (ev_summary : EVENT -> SUM) (ev_description : EVENT -> ODESC) (ev_reminders : EVENT -> REMS) (mk_gcsa_event : SUM -> DV -> DV -> option TZNAME -> ODESC -> GREMS -> GEV) (convert_reminders_to_gcsa : REMS -> GREMS) (tzname_utc : TZNAME) (prepared : PW) : GEV :=
+  let gcsa_reminders := (convert_reminders_to_gcsa (ev_reminders (pw_event prepared))) in
+  (mk_gcsa_event (ev_summary (pw_event prepared)) (pw_start_dt prepared) (pw_end_dt prepared) (if (negb (pw_is_all_day prepared)) then (Some tzname_utc) else None) (ev_description (pw_event prepared)) gcsa_reminders).
+
+(* calgebra/gcsa.py: _build_result_event *)
+Definition g_gcsa_build_result_event {DV : Type} {EVENT : Type} {PW : Type} {SUM : Type} {ODESC : Type} {REMS : Type} {CID : Type} {CSUM : Type} {ID : Type} {RID : Type} {AEV : Type} (pw_event : PW -> EVENT) (pw_start_dt : PW -> DV) (pw_end_dt : PW -> DV) (pw_is_all_day : PW -> bool) (ev_summary : EVENT -> SUM) (ev_description : EVENT -> ODESC) (ev_reminders : EVENT -> REMS) (ev_calendar_id : EVENT -> CID) (ev_calendar_summary : EVENT -> CSUM) (pw_start : PW -> Z) (pw_end : PW -> Z) (mk_result_event : ID -> CID -> CSUM -> SUM -> ODESC -> option RID -> bool -> REMS -> Z -> Z -> AEV) (prepared : PW) (event_id : ID) : AEV :=
+  (mk_result_event event_id (ev_calendar_id (pw_event prepared)) (ev_calendar_summary (pw_event prepared)) (ev_summary (pw_event prepared)) (ev_description (pw_event prepared)) None (pw_is_all_day prepared) (ev_reminders (pw_event prepared)) (pw_start prepared) (pw_end prepared)).
